@@ -1,17 +1,17 @@
 #!/bin/bash
 # tools/try_mutant.sh <patch.diff> [tier] [check ids...]
-# applies a seeded change to /repo, runs the given checks (default: all, quick), restores /repo.  Never commits.
+# Evaluates a seeded change WITHOUT touching /repo: a scratch worktree of /repo's HEAD is created under /tmp, the
+# patch applied there, the given checks (default: all, quick) run against it (OASMC_REPO), the worktree removed.
 PATCH=$(readlink -f "$1"); TIER=${2:-quick}; shift 2 2>/dev/null
-cd /repo || exit 2
-if [ -n "$(git status --porcelain --untracked-files=no)" ]; then echo "/repo has uncommitted tracked changes - refusing"; exit 2; fi
-git apply "$PATCH" || { echo "patch does not apply"; exit 2; }
-EVB=$(mktemp -d); cp -a /verif/evidence/. $EVB/
-trap 'git -C /repo checkout -- . ; cp -a $EVB/. /verif/evidence/; rm -rf $EVB' EXIT
+WT=$(mktemp -d /tmp/oas_mut_XXXX); rmdir $WT
+git -C /repo worktree add -q --detach $WT HEAD || exit 2
+trap 'git -C /repo worktree remove --force $WT' EXIT
+git -C $WT apply "$PATCH" || { echo "patch does not apply to HEAD"; exit 2; }
 cd /verif
 IDS="$@"
 [ -z "$IDS" ] && IDS=$(/venv/bin/python -c "import json;print(' '.join(c['property_id'] for c in json.load(open('MANIFEST.json'))['checks']))")
 for id in $IDS; do
-  out=$(./check $id --tier $TIER 2>&1); rc=$?
+  out=$(OASMC_REPO=$WT ./check $id --tier $TIER 2>&1); rc=$?
   nv=$(echo "$out" | grep -c '^VIOLATION')
   echo "$id rc=$rc violations=$nv :: $(echo "$out" | grep -m1 '^  violation' | cut -c1-260)"
 done
